@@ -34,7 +34,8 @@ Python partiality that is modelled (`Except.error`):
 Division by zero follows IEEE semantics (numpy scalars), as in `Model/Response.lean` and
 `Model/Transpiration.lean`.
 
-`x ** 2` is exact squaring (`x * x`); `x ** 3` and `x ** 8` go through `F.pow` (C `pow`).
+`x ** 2`, `x ** 3` and `x ** 8` all go through `F.pow` (C `pow`, not correctly rounded: `x ** 2` can
+differ from `x * x` by one unit in the last place; the proofs use the law `PowSqLaw`).
 
 Ghost output: `CcState.br`, a branch code (never read by the model, not part of the Python
 state), see `brPot/brAct/brSen` below.
@@ -330,7 +331,7 @@ def ccFixup (crop : CcCrop α) (s : CcState α) (t : α) : CcState α :=
   else s
 
 /-- `(1.72 * c) - (c ** 2) + (0.3 * (c ** 3))` -/
-def microAdvPoly (F : Fn α) (c : α) : α := (1.72 * c) - (c * c) + (0.3 * (F.pow c 3))
+def microAdvPoly (F : Fn α) (c : α) : α := (1.72 * c) - (F.pow c 2) + (0.3 * (F.pow c 3))
 
 /-- the polynomial capped at 1 -/
 def microAdv (F : Fn α) (c : α) : α :=
